@@ -18,7 +18,7 @@ RULE = ('cases: random/boundary graphs n<=9 x delay/duration tables drawn from v
 ASSUMPTIONS = ['user functions are deterministic tables (so the first-passage solution is unique up to ties in the infector)']
 BUDGET = {'quick': 150, 'thorough': 1200}
 CHUNK = {'quick': 40, 'thorough': 200}
-REQUIRED = ['builder_runs_on_multigraphs_with_parallel_edges', 'fast_SIR_weighted_path_runs', 'sim_nodes_checked', 'infectors_checked', 'array_rows_checked', 'builder_arcs_checked', 'markov_builder_draws_checked',
+REQUIRED = ['builder_runs_on_multigraphs_with_parallel_edges', 'fast_SIR_weighted_path_runs', 'fast_SIR_weighted_path_runs_on_directed_networks', 'sim_nodes_checked', 'infectors_checked', 'array_rows_checked', 'builder_arcs_checked', 'markov_builder_draws_checked',
             'get_infected_checked', 'tie_cases', 'one_shot_recovered_iterables']
 VALUE_SETS = {'small_int': [0, 1, 2], 'ties_inf': [0.5, 1, 1, 2, float('inf')], 'zeros': [0, 0, 1], 'cont': None, 'dyadic': [0.25, 0.5, 0.75, 1.5],
               # values one unit in the last place apart: 0.1+0.2 > 0.3, 0.2+0.4 > 0.6, 0.7+0.1 < 0.8 - "delay <= duration" is an exact comparison
@@ -36,6 +36,10 @@ def gen_cases(tier, seed):
         cs = case_seed(seed, PID + 'fsir', j)
         r = random.Random(cs)
         desc = gen.random_graph(r, 2, 10)
+        if j % 10 in (3, 6, 9):
+            # contacts with a direction; the two arcs of a reciprocated pair carry their own weights
+            desc = gen.random_digraph(r, 2, 8)
+            desc['p_dense'] = True
         desc['labels'] = r.choice(gen.LABEL_SCHEMES)
         c = simcase.make_markov_case(r, desc, weight_mode=r.choice(['edge', 'both', 'edge', 'none']), tmins=(0, -3, 2.5, 7.25))
         if c['wm'] == 'none':
@@ -396,6 +400,8 @@ def run_fast_sir(case, res):
         viol(res, 'fast_SIR|weighted_path|exception:%s' % simcase.exc_key(e), {'err': repr(e)})
         return
     bump(res, 'fast_SIR_weighted_path_runs')
+    if G.is_directed():
+        bump(res, 'fast_SIR_weighted_path_runs_on_directed_networks')
     t = list(sim.t())
     if t and t[0] != case['tmin']:
         fails.append(('first_time_is_tmin', {'t0': t[0], 'tmin': case['tmin']}))
